@@ -155,10 +155,13 @@ func (t *vhostTrie) splitHostPath(key string) (host, path string) {
 	hostname, _, err := net.SplitHostPort(host)
 	if err == nil {
 		host = hostname
-	} else if len(host) > 1 && host[0] == '[' && host[len(host)-1] == ']' {
+	} else if len(host) > 1 && host[0] == '[' && host[len(host)-1] == ']' && strings.Contains(host, ":") {
 		// an IPv6 literal without a port: SplitHostPort would have
 		// dropped the brackets along with the port, so drop them here
 		// too; otherwise "[::1]" and "[::1]:8080" are different hosts.
+		// Only an address is written in brackets: a bracketed name
+		// ("[example.com]") is not the site example.com, and the TLS
+		// layer does not treat it as such either.
 		host = host[1 : len(host)-1]
 	}
 	return
